@@ -167,6 +167,35 @@ macro_rules! build_in_order {
     };
 }
 
+/// lock events of the actors' threads as JSON records {k: want|rel, t: thread, c: class, id, m: mode, held: [{c, id, m}]};
+/// lock addresses become small numbers in order of appearance; `dedupe`: identical records once (free-running runs)
+pub fn lock_events_json(evs: Vec<verif::locks::LockEvent>, dedupe: bool) -> Vec<Value> {
+    let mut ids: HashMap<usize, usize> = HashMap::new();
+    let mut out: Vec<Value> = Vec::new();
+    let mut seen: std::collections::HashSet<String> = std::collections::HashSet::new();
+    for e in evs {
+        if !(e.thread.starts_with("client") || e.thread.starts_with("proc") || e.thread.starts_with("policy") || e.thread.starts_with("par-")) {
+            continue; // the harness' own reads (len(), snapshots)
+        }
+        if dedupe {
+            ids.clear();
+        }
+        let mut idof = |a: usize, ids: &mut HashMap<usize, usize>| {
+            let n = ids.len() + 1;
+            *ids.entry(a).or_insert(n)
+        };
+        let held: Vec<Value> = e.held.iter().map(|h| json!({"c":h.0,"id":idof(h.1, &mut ids),"m":h.2.to_string()})).collect();
+        let v = json!({"k":e.kind,"t":if dedupe { "par".to_string() } else { e.thread.clone() },"c":e.lock.0,"id":idof(e.lock.1, &mut ids),"m":e.lock.2.to_string(),"held":held});
+        if dedupe {
+            if e.kind != "want" || !seen.insert(v.to_string()) {
+                continue;
+            }
+        }
+        out.push(v);
+    }
+    out
+}
+
 static CALLBACKS: Mutex<Vec<Value>> = Mutex::new(Vec::new());
 
 pub struct HCallback;
@@ -483,6 +512,10 @@ impl World {
         }
         // with metrics disabled every counter reads 0: nothing to compare
         ev["nomet"] = json!(!self.cfg.metrics);
+        let lk = lock_events_json(verif::locks::drain(), false);
+        if !lk.is_empty() {
+            ev["locks"] = json!(lk);
+        }
         // a panic of the code under test while its state is read (e.g. an estimator that cannot be
         // queried) is data: it becomes an event the specification has no step for
         match std::panic::catch_unwind(std::panic::AssertUnwindSafe(|| post(&self.cache))) {
@@ -1755,6 +1788,8 @@ fn run_schedule(sched: &Value, flavor: &'static str, t: Trace) -> (Trace, usize,
 pub fn run(o: &Opts) -> i32 {
     let seed = o.u64("seed", 1);
     let out = o.str("out", "/verif/work/cache.ndjson");
+    // lock level: every acquisition / release of the crate's locks is attached to the step during which it happened
+    verif::locks::enable(o.flag("locks"));
     if let Some(sf) = o.get("sched") {
         let flavor: &'static str = if o.str("flavor", "sync") == "async" { "async" } else { "sync" };
         sched::install();
